@@ -9,6 +9,10 @@ from typing import Tuple
 
 KEYS_PLAIN = ["a", "b", "c", "x", "y", "d", "e"]
 KEYS_ODD = ["0", "1", "-1", "01", "", "ä", "a b", "'", '"', "~", "/", "and", "k-1", "_p"]
+# rarer still: reserved words, numeric look-alikes, syntax characters, control and non-BMP characters
+KEYS_RARE = ["true", "null", "or", "in", "1e3", "10", "a.b", "a[0]", "$", "@", "#", "\n", "\\", "\x00", "\U0001f600", "é", "*", "?", ","]
+SCALARS_RARE = [2**53 + 1, -(2**53) - 1, 12345678901234567890, -0.0, 1e100, 1e-7, -2.5, 100, "q'uote", 'dq"uote', "back\\slash",
+                "ctl\n\x00", "\U0001f600", "é", "\u00e9\u0301", " lead", "trail ", "[1]", "{}", "null", "true"]
 SCALARS = [None, True, False, 0, 1, -1, 2, 10, 1.5, 1.0, "", "a", "abc", "1", "x y", "b", 3]
 # no look-alikes under Python equality (True == 1, 1 == 1.0): used where a
 # statement is phrased in terms of "the same value".
@@ -17,8 +21,9 @@ SCALARS_NO_LOOKALIKE = [None, 2, 3, 10, -4, 1.5, 2.5, "", "a", "abc", "1", "x y"
 
 def profile(rng: random.Random) -> Dict[str, Any]:
     return {
-        "max_depth": rng.choice([1, 2, 2, 3, 3, 4]),
-        "max_children": rng.choice([2, 3, 3, 4]),
+        "max_depth": rng.choice([1, 2, 2, 3, 3, 4, 4, 6]),
+        "max_children": rng.choice([2, 3, 3, 4, 4, 9]),
+        "rare": rng.random() < 0.2,
         "odd_keys": rng.random() < 0.3,
         "stringy": rng.random() < 0.3,
         "p_container": rng.choice([0.3, 0.5, 0.7]),
@@ -27,12 +32,16 @@ def profile(rng: random.Random) -> Dict[str, Any]:
 
 
 def gen_key(rng: random.Random, prof: Dict[str, Any]) -> str:
+    if prof.get("rare") and rng.random() < 0.2:
+        return rng.choice(KEYS_RARE)
     if prof.get("odd_keys") and rng.random() < 0.35:
         return rng.choice(KEYS_ODD)
     return rng.choice(KEYS_PLAIN)
 
 
 def gen_scalar(rng: random.Random, prof: Dict[str, Any]) -> Any:
+    if prof.get("rare") and prof.get("lookalikes", True) and rng.random() < 0.15:
+        return rng.choice(SCALARS_RARE)
     pool = SCALARS if prof.get("lookalikes", True) else SCALARS_NO_LOOKALIKE
     if prof.get("stringy") and rng.random() < 0.5:
         return rng.choice(["", "a", "abc", "1", "x y", "b", "ab", "0"])
